@@ -1,43 +1,19 @@
-"""Property registry: which jobs decide which property at which tier."""
-from .runner import Job
+"""Property registry: aggregates vlib/props/cNN.py (one module per property).
+Each module defines PROP (jobs(tier) -> [Job], rule, required_labels, exhaustive_parts,
+assumptions) and TEXT (technique, level, note) and optionally NOT_APPLICABLE (reason)."""
+import importlib
+import os
 
-W = 16  # worker processes
-
-
-def _c06(tier):
-    q = tier == "quick"
-    return [
-        Job("c06_parse", "flt-asan", "enumerate", workers=W, enum_stride=24 if q else 1, maxtime=40 if q else 900),
-        Job("c06_parse", "flt-asan", "random", workers=W, cases=60000 if q else 1500000, maxtime=25 if q else 300),
-    ] + ([] if q else [Job("c06_parse", "flt-fuzz", "fuzz", fuzz_jobs=8, fuzz_time=240)])
-
-
-PROPS = {
-    "C06": dict(
-        jobs=_c06,
-        rule="cases = byte strings (exhaustive header families A/B/C of DESIGN C06 crossed with both framings; structured "
-             "serialised specs with mutations; raw bytes; libFuzzer in thorough). Non-trivial = header-family case whose "
-             "accept/reject verdict flips within +-3 bytes of total length, or a structured case with a two-byte length, "
-             "padding or a mutation; distinct = hash of (first header bytes, length, framing).",
-        required_labels={"any": {"c06_parse/std-accept": 100, "c06_parse/sd-accept": 100, "c06_parse/std-reject": 100,
-                                 "c06_parse/sd-reject": 100, "c06_parse/padding-chain": 10, "c06_parse/code3-vbr": 10,
-                                 "c06_parse/decoded": 10, "c06_parse/lbrr-set": 10}},
-        exhaustive_parts={"thorough": ["family A: 256 TOC x 4 fills x length 0..1600 x 2 framings",
-                                       "family B: 256 TOC x 256 first length bytes x 12 second bytes x 42 total lengths x 2 framings",
-                                       "family C: 64 code-3 TOCs x 256 count bytes x 12 padding chains x 25 length pairs x 16 total lengths x 2 framings"],
-                          "quick": ["1/24 stratified slice of families A, B, C"]},
-        assumptions=["The executable model in engine/rfc_framing.hpp is a faithful transcription of RFC 6716 section 3 and Appendix B.",
-                     "Header helpers without a length argument are only called with len >= 1 (documented precondition)."],
-    ),
-}
-
-MANIFEST_TEXT = {
-    "C06": dict(
-        technique="differential property-based testing against an executable RFC 6716 framing model: exhaustive header-family enumeration + structured random generation + libFuzzer",
-        level="Every byte string generated is parsed by opus_packet_parse_impl in both framings and compared, verdict and every out-parameter, with an independent "
-              "model of RFC 6716 s3/App. B; three header families are enumerated completely in the thorough tier (2.3e8 packets) and 1/24 of them in quick; "
-              "helpers are compared per TOC x rate. Exploration: no claim beyond the enumerated families and sampled cases.",
-        note="Trusted: the framing model (engine/rfc_framing.hpp), the range decoder used to read the SILK header bits for the LBRR oracle (checked by C08), ASan/UBSan.",
-    ),
-}
+PROPS = {}
+MANIFEST_TEXT = {}
 NOT_APPLICABLE = {}
+_d = os.path.join(os.path.dirname(os.path.abspath(__file__)), "props")
+for _f in sorted(os.listdir(_d)):
+    if _f.startswith("c") and _f.endswith(".py"):
+        _m = importlib.import_module("vlib.props." + _f[:-3])
+        _pid = _f[:-3].upper()
+        if hasattr(_m, "NOT_APPLICABLE"):
+            NOT_APPLICABLE[_pid] = _m.NOT_APPLICABLE
+            continue
+        PROPS[_pid] = _m.PROP
+        MANIFEST_TEXT[_pid] = _m.TEXT
